@@ -140,7 +140,7 @@ func c36(c *rig.Ctx) {
 	srcDir := filepath.Join(root, "src")
 	cnt := newCounters()
 	l := &limiter{c: c, seen: map[string]int{}}
-	n := c.Pick(8, 300)
+	n := c.Pick(4, 200)
 
 	// ---- phase 1: build the source databases through SQL and snapshot them ---------------------------------------------
 	srv, err := sqlrig.Start(srcDir)
